@@ -99,46 +99,58 @@ func H_C17_class() {
 	vAssert("trivial-exact", (p&t.mask == t.port&t.mask) == refInRange(p, lo, hi))
 }
 
-// H_C17_ternstep: one iteration of the Ternary strategy from an arbitrary
-// loop state port <= high: the rule produced covers exactly [port, maxPort]
-// with port <= maxPort <= high. Together with the loop glue
-// (port' = maxPort+1, loop while port' <= high) this is the inductive step of
-// "the rules cover exactly [low, high]". Driven through the real function by
-// choosing low = port: the first rule is the block starting at low.
-func H_C17_ternstep() {
-	lo, hi := vU16("lo"), vU16("hi")
-	vAssume(lo <= hi)
-	p := vU16("probe")
-	pr := portRange{low: lo, high: hi}
-	vAssume(pr.isRangeMatch())
-	rules, err := pr.asComplexTernaryMatches(Ternary)
-	vAssert("ternary-never-refuses-a-true-range", err == nil)
-	vAssert("ternary-at-least-one-rule", len(rules) >= 1)
-	first := rules[0]
-	// block covered by the first rule: [first.port & mask, (first.port & mask) + ^mask]
-	base := first.port & first.mask
-	top := base + ^first.mask
-	vAssert("block-starts-at-low", base == lo)
-	vAssert("block-no-wrap", top >= base)
-	vAssert("block-inside-range", top <= hi)
-	vAssert("block-membership-is-mask-match", (p&first.mask == base) == vAnd(base <= p, p <= top))
-	// the mask is a prefix mask (contiguous ones from the top)
-	inv := ^first.mask
-	vAssert("mask-is-prefix", inv&(inv+1) == 0)
-	vObserve("first", first.port, first.mask, len(rules))
+// vPortMask is the mask the Ternary strategy chooses for the block starting at
+// port in a range ending at end: under the engine the real function literal
+// portMask of asComplexTernaryMatches is executed directly; natively it is read
+// off the first rule of the real expansion of [port, end] (same literal, first
+// loop iteration).
+func vPortMask(port, end uint16) uint16 {
+	if vInEngine() {
+		return vAnonU16x2("(github.com/omec-project/upf-epc/pfcpiface.portRange).asComplexTernaryMatches", "port,end", port, end)
+	}
+	rules, err := portRange{low: port, high: end}.asComplexTernaryMatches(Ternary)
+	if err != nil || len(rules) == 0 {
+		return 0
+	}
+	return rules[0].mask
 }
 
-// H_C17_tern: the whole Ternary expansion, for every range whose expansion
-// has at most N rules (N bounded by the path step budget): the rules match
-// exactly [low, high].
+// H_C17_ternstep: the inductive step of "the Ternary rules cover exactly
+// [low, high]": for ANY block start port <= end the mask chosen by portMask
+// describes an aligned block [port, top] that starts at port, does not wrap,
+// stays inside [port, end], and whose mask-match is exactly membership of the
+// block. The expansion loop continues from top + 1 while that is <= high
+// (H_C17_tern runs the loop itself for expansions of bounded length), so by
+// induction the blocks tile [low, high] and the loop terminates.
+func H_C17_ternstep() {
+	port, end := vU16("port"), vU16("end")
+	vAssume(port < end)                           // port == end is the exact fast path (H_C17_class)
+	vAssume(vNot(vAnd(port == 0, end == 0xffff))) // the wildcard fast path, natively
+	p := vU16("probe")
+	mask := vPortMask(port, end)
+	base := port & mask
+	top := base + ^mask
+	vObserve("mask", mask)
+	vAssert("block-starts-at-port", base == port)
+	vAssert("block-no-wrap", top >= base)
+	vAssert("block-inside-range", top <= end)
+	vAssert("block-membership-is-mask-match", (p&mask == port&mask) == vAnd(base <= p, p <= top))
+	inv := ^mask
+	vAssert("mask-is-prefix", inv&(inv+1) == 0)
+}
+
+// H_C17_tern: the whole Ternary expansion (the real loop around portMask), for
+// every range at most vTernWidth ports wide (the number of rules is bounded by
+// 2*log2(width)): the rules match exactly [low, high], consecutive blocks are
+// adjacent.
 func H_C17_tern() {
 	lo, hi := vU16("lo"), vU16("hi")
 	vAssume(lo <= hi)
+	vAssume(hi-lo < uint16(vTernWidth))
 	p := vU16("probe")
 	pr := portRange{low: lo, high: hi}
 	rules, err := pr.asComplexTernaryMatches(Ternary)
 	vAssert("ternary-never-refuses", err == nil)
-	vAssume(len(rules) <= vTernMaxRules)
 	matched := false
 	for _, r := range rules {
 		matched = vOr(matched, p&r.mask == r.port&r.mask)
@@ -148,4 +160,4 @@ func H_C17_tern() {
 	vAssert("ternary-rules-match-exactly", matched == refInRange(p, lo, hi))
 }
 
-var vTernMaxRules = 4
+var vTernWidth = 8
